@@ -157,6 +157,7 @@ def make_hook(prog: Program, extra: Callable[[ast.Call, Evaluator], Any] = None)
         return NotImplemented
 
     enum_members: Dict[Any, Any] = {}
+    class_attr_cache: Dict[Any, Any] = {}
 
     def enum_kind(ci: ClassInfo) -> Optional[str]:
         for c in prog.mro(ci):
@@ -195,7 +196,11 @@ def make_hook(prog: Program, extra: Callable[[ast.Call, Evaluator], Any] = None)
         if isinstance(base, SimpleNamespace) and hasattr(base, "__cls__"):
             a = prog.class_attr_expr(base.__cls__, attr)
             if a and prog.find_method(base.__cls__, attr) is None:
-                return Evaluator(prog, a[0].module, a[0], {}, hook).ev(a[1])
+                # a class attribute is one object shared by all instances: evaluated once (mutable class-level state is visible as such)
+                key = (a[0].qualname, attr)
+                if key not in class_attr_cache:
+                    class_attr_cache[key] = Evaluator(prog, a[0].module, a[0], {}, hook).ev(a[1])
+                return class_attr_cache[key]
         if isinstance(base, SimpleNamespace) and hasattr(base, "__cls__"):
             m = prog.find_method(base.__cls__, attr)
             if m is not None and m.kind == "property":
